@@ -6016,8 +6016,10 @@ class State:
                     hand_type_indices = []
 
                     for k in self.hand_type_indices:
-                        for hand in self.get_up_hands(j, k):
-                            if hand is not None:
+                        hands = tuple(self.get_up_hands(j, k))
+
+                        for l in pot.player_indices:
+                            if hands[l] is not None:
                                 hand_type_indices.append(k)
 
                                 break
